@@ -76,13 +76,14 @@ def cmd_run(argv):
     t0 = time.time()
     world = load_world(world_name)
     world.known = load_known(world.property_id)
-    world.warmup()
+    world.warmup(config)
     t_warm = time.time() - t0
 
     agg = {
         "world": world_name,
         "tier": tier,
         "config": config,
+        "offset": offset,
         "evaluations": 0,
         "nontrivial": 0,
         "fingerprints": {},
@@ -143,15 +144,17 @@ def cmd_run(argv):
             rec = {"seed": seed, "violation": v, "fp": fpv, "replay": None}
             if fpv not in shrunk_fps and len(shrunk_fps) < 3:
                 shrunk_fps.add(fpv)
-                if no_shrink:
+                fresh_only = bool(plan.get("history"))  # process history is part of the plan
+                if no_shrink or fresh_only:
                     best, bv, execs = plan, v, 0
                 else:
                     best, bv, execs = Shrinker(world, plan, v).run()
-                r2 = world.execute(best)
+                r2 = res if fresh_only else world.execute(best)
                 replay = {
                     "property": world.property_id,
                     "world": world_name,
                     "config": config,
+                    "tier": tier,
                     "seed": seed,
                     "plan": best,
                     "violation": bv,
@@ -187,7 +190,7 @@ def cmd_replay(argv):
     world.known = set()
     if "--known" in argv:
         world.known = load_known(world.property_id)
-    world.warmup()
+    world.warmup(replay.get("config", "default"))
     res = world.execute(replay["plan"])
     out = {
         "violation": res.violation,
